@@ -26,4 +26,8 @@ def mc_all(oc, runs, tier):
 def load_all():
     here = os.path.dirname(os.path.abspath(__file__))
     for m in sorted(f[:-3] for f in os.listdir(here) if f.startswith("p_") and f.endswith(".py")):
-        importlib.import_module("vlib." + m)
+        try:
+            importlib.import_module("vlib." + m)
+        except Exception as ex:     # a broken family module must not take the other properties down
+            import sys
+            print("warning: family module %s failed to load: %r" % (m, ex), file=sys.stderr)
